@@ -24,13 +24,13 @@ DEFAULT_SEED = 20261003
 
 # check -> build needs, run counts (quick, thorough), per-run cap
 CHECKS = {
-    'C18': dict(exts=build.FORMAT_EXTS, runs=(24000, 400000), cap=60),
+    'C18': dict(exts=build.FORMAT_EXTS, runs=(32000, 600000), cap=60),
     'C02': dict(exts=build.FORMAT_EXTS, runs=(12000, 200000), cap=60),
-    'C19': dict(exts=build.FORMAT_EXTS, runs=(6000, 100000), cap=60),
-    'C20': dict(exts=build.FORMAT_EXTS, runs=(3000, 50000), cap=60, sim_clock=True),
-    'C03': dict(exts=build.ALL_EXTS, runs=(8000, 150000), cap=60),
-    'C17': dict(exts=build.ALL_EXTS, runs=(8000, 150000), cap=60),
-    'C04': dict(exts=[], runs=(8000, 150000), cap=60),
+    'C19': dict(exts=build.FORMAT_EXTS, runs=(16000, 300000), cap=60),
+    'C20': dict(exts=build.FORMAT_EXTS, runs=(10000, 200000), cap=60, sim_clock=True),
+    'C03': dict(exts=build.ALL_EXTS, runs=(20000, 400000), cap=60),
+    'C17': dict(exts=build.ALL_EXTS, runs=(12000, 250000), cap=60),
+    'C04': dict(exts=[], runs=(20000, 400000), cap=60),
     'C08': dict(exts=build.ALL_EXTS, runs=(1600, 30000), cap=120, sim_omp=True),
 }
 
